@@ -131,46 +131,52 @@ def check_physics(ctx, name, spec, a, p, replay):
 
 
 def check_interface(ctx, name, spec, a, replay):
-    """place and wire by pin name, solve, print — whatever numeric types the arguments have"""
+    """place and wire by pin name, solve, print — whatever numeric types the arguments have.
+    Every stage is tried on its own so that each failing helper is reported under its own signature."""
     L = impl.lk()
-    sink = io.StringIO()
-    stage = "construct"
+    tys = sorted((k, type(v).__name__) for k, v in a.items())
+    ok = True
+
+    def stage(label, sig, fn):
+        nonlocal ok
+        sink = io.StringIO()
+        try:
+            with contextlib.redirect_stdout(sink):
+                fn()
+        except Exception as e:  # noqa
+            ctx.violation(sig, f"{name}{tys}: {label} raised {type(e).__name__}: {str(e)[:70]}", replay)
+            ok = False
+
     try:
-        with contextlib.redirect_stdout(sink):
-            m = spec["make"](a)
-            stage = "str"
-            str(m)
-            stage = "pin-table"
-            names = [p.name for p in m.pin_dic]
-            if set(m.pin.keys()) != set(names):
-                raise KeyError("name table does not list the pins")
-            stage = "put-by-name"
-            sol = L.Solver()
-            with sol:
-                st = m.put()
-                other = L.Model(pin_dic={L.Pin("x"): 0, L.Pin("y"): 1}, Smatrix=np.array([[0, 1], [1, 0]], complex))
-                ost = other.put("x", (st, names[0]))
-                m2 = spec["make"](a)
-                st2 = m2.put(names[-1], (ost, "y"))
-                L.raise_pins()
-            stage = "solve-in-solver"
-            kw = {"wl": 1.55} if name in ("Waveguide", "UserWaveguide", "TH_PhaseShifter") else {}
-            sol.solve(**kw)
-            stage = "print_S"
-            m.print_S()
-            stage = "show_free_pins"
-            m.show_free_pins()
-            stage = "inspect"
-            m.inspect()
-            sol.inspect()
+        m = spec["make"](a)
     except Exception as e:  # noqa
-        tys = sorted((k, type(v).__name__) for k, v in a.items())
-        sig = {"str": f"C09:str:{name}", "pin-table": f"C09:no-pin-table:{name}", "put-by-name": f"C09:no-pin-table:{name}",
-               "print_S": "C09:print-helper:print_S", "show_free_pins": "C09:print-helper:show_free_pins",
-               "solve-in-solver": f"C09:solve-in-solver:{name}"}.get(stage, f"C09:interface:{stage}:{name}")
-        ctx.violation(sig, f"{name}{tys}: {stage} raised {type(e).__name__}: {str(e)[:70]}", replay)
+        ctx.violation(f"C09:construct:{name}", f"{name}{tys}: constructor raised {type(e).__name__}", replay)
         return False
-    return True
+    names = [p.name for p in m.pin_dic]
+    stage("str()", f"C09:str:{name}", lambda: str(m))
+
+    def table():
+        if set(m.pin.keys()) != set(names):
+            raise KeyError("name table does not list the pins")
+    stage("pin name table", f"C09:no-pin-table:{name}", table)
+
+    def place():
+        sol = L.Solver()
+        with sol:
+            other = L.Model(pin_dic={L.Pin("x"): 0, L.Pin("y"): 1}, Smatrix=np.array([[0, 1], [1, 0]], complex))
+            ost = other.put()
+            st = m.put(names[0], (ost, "x"))          # placed and wired by pin *name*
+            L.putpin("OUT", (ost, "y"))
+            for k, nm in enumerate(names[1:]):
+                L.putpin(f"P{k}", st.pin[nm])
+        kw = {"wl": 1.55} if name in ("Waveguide", "UserWaveguide", "TH_PhaseShifter") else {}
+        sol.solve(**kw)
+        sol.inspect()
+    stage("put()/connect by pin name + solve in a solver", f"C09:place-and-solve:{name}", place)
+    stage("print_S()", "C09:print-helper:print_S", lambda: m.print_S())
+    stage("show_free_pins()", "C09:print-helper:show_free_pins", lambda: m.show_free_pins())
+    stage("inspect()", "C09:print-helper:inspect", lambda: m.inspect())
+    return ok
 
 
 def draw(rng, spec, all_int=False):
@@ -189,9 +195,27 @@ def draw(rng, spec, all_int=False):
     return a, p, tys
 
 
+def fmt_monitor(ctx):
+    """the finite table `C09.fmtOk` (Lean) against CPython's real format() on ints and floats"""
+    fixed = [".3f", ".2f", ".4f", ".3e", ".3g"]
+    general = [".3", ".2", ".4"]
+    for spec in fixed + general:
+        for ty, v in (("int", 3), ("float", 0.25), ("np.int64", np.int64(3)), ("np.float64", np.float64(0.25))):
+            try:
+                format(v, spec)
+                real = True
+            except Exception:
+                real = False
+            model = True if spec in fixed else (ty in ("float", "np.float64"))
+            ctx.assumption_monitors[f"format:{spec}:{ty}"] += 1
+            if real != model:
+                ctx.disagreement("C09.model.fmtOk", f"format({ty}, {spec!r}) {'works' if real else 'raises'}, the Lean table says {model}", {"spec": spec, "type": ty})
+
+
 def run(ctx):
     rng = ctx.subrng("c09")
     B = blocks()
+    fmt_monitor(ctx)
     n = ctx.budget(40, 1000)
     for name, spec in B.items():
         for i in range(n):
